@@ -265,3 +265,28 @@ func pixelOf(img image.Image, idx int) (image.Point, bool) {
 	b := img.Bounds()
 	return image.Pt(b.Min.X+(idx%stride)/bpp, b.Min.Y+idx/stride), true
 }
+
+// snapshotPlanes copies every pixel buffer of an image (read by the calling
+// goroutine: this is the caller looking at a result).
+func snapshotPlanes(img image.Image) [][]uint8 {
+	var out [][]uint8
+	for _, pl := range planes(img) {
+		out = append(out, append([]uint8(nil), pl...))
+	}
+	return out
+}
+
+func planesEqual(a [][]uint8, img image.Image) (bool, string) {
+	b := planes(img)
+	for i := range a {
+		if len(a[i]) != len(b[i]) {
+			return false, fmt.Sprintf("plane %d has %d bytes, expected %d", i, len(a[i]), len(b[i]))
+		}
+		for j := range a[i] {
+			if a[i][j] != b[i][j] {
+				return false, fmt.Sprintf("plane %d byte %d is %#02x, expected %#02x", i, j, a[i][j], b[i][j])
+			}
+		}
+	}
+	return true, ""
+}
